@@ -167,7 +167,7 @@ EncodeClauses(e) ==
   \cup
   (* C17: encode returns bytes or an error *)
   (IF P("C17") /\ e.res \notin {"ok", "err"}
-   THEN {<<"C17.encode-outcome", IF EncMsg(T, v).why = "nil-nested" THEN "Nested_NilDeref" ELSE "none">>}
+   THEN {<<"C17.encode-outcome", IF HasNilNested(T, v) THEN "Nested_NilDeref" ELSE "none">>}
    ELSE {})
   \cup
   (* C18: a value too long for its prefix is refused *)
